@@ -28,7 +28,9 @@ def real_case(phase, n, kind, budget):
             "assertion_generation": "NONE", "minimize": False}
 
 
-# name -> (expected key, real case or None, which workloads must fire)
+# name -> (expected key, real case or None).  TIMING_DEPENDENT_REAL: the break only shows in a real pipeline if the crashed
+# worker lived for less than a second (import crash on an idle machine); there the scripted workload is the deciding one and
+# a silent real run is reported as "not-triggered", not as a miss.
 EXPECT = {
     "adjust-rounds-up": ("restart:search-time-not-reduced", real_case("import", 2, "time", {"maximum_search_time": 6})),
     "adjust-noop": ("restart:search-time-not-reduced", real_case("cluster", 1, "time", {"maximum_search_time": 6})),
@@ -40,6 +42,7 @@ EXPECT = {
     "adjust-undercounts": ("restart:after-wall-clock-budget-exhausted", real_case("export", 99, "time", {"maximum_search_time": 6})),
 }
 REAL_ONLY = {"adjust-undercounts"}
+TIMING_DEPENDENT_REAL = {"adjust-rounds-up", "short-crashes-free"}
 
 
 def scripted_cases(brk):
@@ -100,6 +103,8 @@ def main(argv):
                 else:
                     ok = EXPECT[brk][0] in keys
                     verdict = "caught" if ok else "MISSED"
+                    if not ok and wl == "real" and brk in TIMING_DEPENDENT_REAL and not keys:
+                        ok, verdict = True, "not-triggered"
                 bad += 0 if ok else 1
                 print(f"{str(brk or 'baseline'):26s} {wl:8s} {verdict:10s} evals={ctx.evals:4d} witnesses={counts} "
                       f"inconclusive={ctx.inconclusive[:2]} anomalies={dict(ctx.anomalies)}")
